@@ -117,7 +117,13 @@ def signed(curve, d, k, h, pub=None, pad=0):
 
 def msg_hash(rng, hlen=None):
   hlen = hlen if hlen is not None else rng.choice([20, 28, 32, 48, 64])
-  return rng.bytes(hlen)
+  h = rng.bytes(hlen)
+  if hlen >= 2 and rng.chance(1, 6):
+    # digests with one or two leading zero bytes: the digest's *length*, not
+    # its value, decides the truncation of RFC 6979 2.4
+    z = rng.choice([1, 1, 2])
+    h = b'\x00' * z + h[z:]
+  return h
 
 
 def semiprime(rng, bits, e=65537):
